@@ -4,7 +4,8 @@
                                                         dummy trees for bins without objects)
      redshifts.py: _redshift_histogram                 (outer-edge mask + np.histogram)
      correlation/measurements.py: process_patch_pair / count_pairs
-                                                       (per-bin sum_weights copied from the trees)
+                                                       (per-bin sum_weights copied from the trees,
+                                                        one write per patch pair result: count_pairs_sw)
    and the spec  member closed edges b z.
    Executable definitions only; proofs are in Proofs/BinningP.v. *)
 From Verif Require Import Prelude.
@@ -212,4 +213,99 @@ Definition c10_transport_case (cr : bool) (edges : list Q) (cr' : bool) (edges' 
     qlist_eqb edges edges';
     same_members_on (probes_of edges ++ probes_of edges') (cr, edges) (cr', edges');
     increasingb edges && (2 <=? length edges)%nat
+  ].
+
+(* ---------- count_pairs over linked patch pairs (correlation/measurements.py) ----------
+   BinnedTrees(patch) iterated over the bins: a catalog with a binning holds one tree per bin,
+   a catalog built without binning (the unknown sample and its randoms in a cross-correlation)
+   holds ONE tree over all its objects, repeated for every bin *)
+Definition patch_trees (binned hasw cr : bool) (edges : list Q) (objs : list obj) : list tree :=
+  if binned then build_trees_fix hasw cr edges objs else repeat (make_tree hasw objs) (nbins edges).
+Definition cat_trees (binned hasw cr : bool) (edges : list Q) (patches : list (list obj)) : list (list tree) :=
+  map (patch_trees binned hasw cr edges) patches.
+
+(* process_patch_pair: for i, (tree1, tree2) in enumerate(zip(trees1, trees2)):
+     sum_weights1[i] = tree1.sum_weights;  sum_weights2[i] = tree2.sum_weights *)
+Definition pair_sums (t1 t2 : list tree) : list Q * list Q :=
+  (map (fun tt => snd (fst tt)) (combine t1 t2), map (fun tt => snd (snd tt)) (combine t1 t2)).
+(* a variant that leaves a bin untouched (0) as soon as one of the two trees holds no object:
+   what a patch reports then depends on its partner (refuted in Proofs/BinningP.v) *)
+Definition pair_sums_skip (t1 t2 : list tree) : list Q * list Q :=
+  let live (tt : tree * tree) := negb ((fst (fst tt) =? 0)%nat || (fst (snd tt) =? 0)%nat) in
+  (map (fun tt => if live tt then snd (fst tt) else 0) (combine t1 t2),
+   map (fun tt => if live tt then snd (snd tt) else 0) (combine t1 t2)).
+
+Fixpoint upd {A} (l : list A) (k : nat) (x : A) : list A :=
+  match l, k with
+  | [], _ => []
+  | _ :: r, O => x :: r
+  | a :: r, S k' => a :: upd r k' x
+  end.
+
+(* count_pairs: sum_weights1 = sum_weights2 = zeros((num_bins, num_patches)); for every pair result,
+   in the order in which the results arrive:
+     sum_weights1[:, id1] = result.sum_weights1;  sum_weights2[:, id2] = result.sum_weights2
+   state = the columns (one per patch) of the two matrices *)
+Definition sw_state := (list (list Q) * list (list Q))%type.
+Definition sw_init (nb p1 p2 : nat) : sw_state := (repeat (repeat 0 nb) p1, repeat (repeat 0 nb) p2).
+Definition pair_write (ps : list tree -> list tree -> list Q * list Q) (c1 c2 : list (list tree))
+    (st : sw_state) (ij : nat * nat) : sw_state :=
+  let r := ps (nth (fst ij) c1 []) (nth (snd ij) c2 []) in
+  (upd (fst st) (fst ij) (fst r), upd (snd st) (snd ij) (snd r)).
+Definition count_pairs_gen ps (nb : nat) (c1 c2 : list (list tree)) (pairs : list (nat * nat)) : sw_state :=
+  fold_left (pair_write ps c1 c2) pairs (sw_init nb (length c1) (length c2)).
+Definition cols_to_mat (nb : nat) (cols : list (list Q)) : list (list Q) :=
+  map (fun b => map (fun c => nth b c 0) cols) (seq 0 nb).
+(* PatchedSumWeights.sum_weights1 / .sum_weights2 (num_bins x num_patches) of one pair-count container *)
+Definition count_pairs_with ps (cr : bool) (edges : list Q) (binned1 hasw1 : bool) (cat1 : list (list obj))
+    (binned2 hasw2 : bool) (cat2 : list (list obj)) (pairs : list (nat * nat)) : list (list Q) * list (list Q) :=
+  let nb := nbins edges in
+  let st := count_pairs_gen ps nb (cat_trees binned1 hasw1 cr edges cat1) (cat_trees binned2 hasw2 cr edges cat2) pairs in
+  (cols_to_mat nb (fst st), cols_to_mat nb (snd st)).
+Definition count_pairs_sw := count_pairs_with pair_sums.
+Definition count_pairs_sw_skip := count_pairs_with pair_sums_skip.
+
+(* the spec of one side: a binned sample follows `member`; a sample without binning carries no
+   redshift rule, every object counts in every bin *)
+Definition spec_side (binned hasw cr : bool) (edges : list Q) (patches : list (list obj)) : list (list Q) :=
+  if binned then spec_sum_weights hasw cr edges patches
+  else map (fun _ => map (fun objs => qsumr (map (ow hasw) objs)) patches) (seq 0 (nbins edges)).
+
+(* the pair sequence names existing patches and every patch occurs on either side
+   (iter_patch_id_pairs yields (i, i) for every patch before anything else) *)
+Definition pairs_ok (p1 p2 : nat) (pairs : list (nat * nat)) : bool :=
+  forallb (fun ij => (fst ij <? p1)%nat && (snd ij <? p2)%nat) pairs &&
+  forallb (fun p => existsb (fun ij => (fst ij =? p)%nat) pairs) (seq 0 p1) &&
+  forallb (fun p => existsb (fun ij => (snd ij =? p)%nat) pairs) (seq 0 p2).
+
+(* classification of a difference (not used by any theorem): does the observed matrix keep the zero
+   pattern of the spec?  populated_kept: no cell the spec populates (<> 0) is observed as 0;
+   empty_kept: no cell the spec leaves empty (= 0) is observed as <> 0 *)
+Definition cells_all (p : Q -> Q -> bool) (obs spec : list (list Q)) : bool :=
+  forallb (fun rr => forallb (fun os => p (fst os) (snd os)) (combine (fst rr) (snd rr))) (combine obs spec).
+Definition populated_kept := cells_all (fun o s => Qeqb s 0 || negb (Qeqb o 0)).
+Definition empty_kept := cells_all (fun o s => negb (Qeqb s 0) || Qeqb o 0).
+
+(* one pair-count container (dd / dr / rd / rr) of a measurement over several patches:
+   closed side, edges; sample 1 and sample 2 (binned?, weight column?, objects per patch); the
+   sequence of patch id pairs of the linkage; observed sum_weights1 and sum_weights2
+   flags: 0 model of count_pairs = observed sum_weights1     1 the same for sum_weights2
+          2 observed sum_weights1 = spec                     3 observed sum_weights2 = spec
+          4 hypotheses (edges strictly increasing, >= 2; pair sequence well formed and covering)
+          5 / 6 sum_weights1: populated cells kept / empty cells kept   (classification only)
+          7 / 8 sum_weights2: populated cells kept / empty cells kept   (classification only) *)
+Definition c10_count_case (cr : bool) (edges : list Q) (binned1 hasw1 : bool) (cat1 : list (list obj))
+    (binned2 hasw2 : bool) (cat2 : list (list obj)) (pairs : list (nat * nat))
+    (obs1 obs2 : list (list Q)) : nat :=
+  let m := count_pairs_sw cr edges binned1 hasw1 cat1 binned2 hasw2 cat2 pairs in
+  let s1 := spec_side binned1 hasw1 cr edges cat1 in
+  let s2 := spec_side binned2 hasw2 cr edges cat2 in
+  code [
+    qmat_eqb obs1 (fst m);
+    qmat_eqb obs2 (snd m);
+    qmat_eqb obs1 s1;
+    qmat_eqb obs2 s2;
+    increasingb edges && (2 <=? length edges)%nat && pairs_ok (length cat1) (length cat2) pairs;
+    populated_kept obs1 s1; empty_kept obs1 s1;
+    populated_kept obs2 s2; empty_kept obs2 s2
   ].
